@@ -793,7 +793,23 @@ def cmd_call_args(req):
         return out
     out["log_construct"] = _scalar_log()
     client = make_client(handler)
-    fn = getattr(client, req["method"])
+    if "custom" in req:
+        # custom operation builder (enable_custom_operations): client.query(Query.<field>(**args), operation_name=...)
+        try:
+            root = getattr(STATE["mods"][req["custom"].get("module", "custom_queries")], req["custom"].get("root", "Query"))
+            built = getattr(root, req["custom"]["field"])(**args)
+        except BaseException as exc:  # noqa
+            out["exc"] = ["build:" + type(exc).__name__, str(exc)[:600]]
+            out["log_call"] = _scalar_log()
+            return out
+        out["log_build"] = _scalar_log()
+        args = {}
+        meth = getattr(client, req["method"])
+
+        def fn(**_kw):
+            return meth(built, operation_name=req["custom"].get("operation_name", "CustomOp"))
+    else:
+        fn = getattr(client, req["method"])
     is_sub = inspect.isasyncgenfunction(fn)
     if is_sub:
         # subscription: a scripted graphql-transport-ws connection (ack, complete) that records the subscribe
